@@ -478,3 +478,5 @@ def check(ctx, run):  # noqa: F811
     # now, not on which reads and writes came before
     from ..registry import histories_rule
     histories_rule(ctx, run, "C16.R7")
+    from ..registry import primary_histories_rule
+    primary_histories_rule(ctx, run, "C16.R7")
